@@ -58,6 +58,11 @@ pub struct HistoryCase {
     /// thread right before the history: state left behind by a failed call would show
     #[serde(default)]
     pub failed_parse_first: bool,
+    /// render the tree (both sort orders, result discarded) after every step before extending it
+    /// further: anything a rendering leaves behind in the tree (memoised names, cached layouts)
+    /// would show in the final output
+    #[serde(default)]
+    pub render_between: bool,
 }
 
 impl HistoryCase {
@@ -77,6 +82,7 @@ impl HistoryCase {
             raw_texts: None,
             across_threads: false,
             failed_parse_first: false,
+            render_between: false,
         }
     }
     pub fn texts(&self) -> Vec<String> {
@@ -126,7 +132,9 @@ pub fn observe(case: &HistoryCase) -> Result<Obs, ObsError> {
         let _ = guarded(|| real::parse_bytes(bad.as_bytes(), ReaderKind::Slice, Cfg::default()).is_ok());
     }
     let run = || {
-        if case.across_threads {
+        if case.render_between {
+            real::run_history_rendering_between(&texts, &case.kinds, Cfg::default(), case.across_threads)
+        } else if case.across_threads {
             real::run_history_across_threads(&texts, &case.kinds, Cfg::default())
         } else {
             real::run_history(&texts, &case.kinds, Cfg::default())
@@ -247,6 +255,7 @@ pub fn random_case(seed: u64, label: &str, index: u64, mix: Mix) -> HistoryCase 
         raw_texts: None,
         across_threads: index % 9 == 4,
         failed_parse_first: index % 7 == 3,
+        render_between: index % 5 == 1,
     }
 }
 
@@ -1184,6 +1193,9 @@ pub fn run_case(case: &HistoryCase, oracle: Oracle, rep: &mut Report) {
             }
             if case.failed_parse_first {
                 rep.count("histories preceded by a rejected parse on the same thread");
+            }
+            if case.render_between && case.docs.len() > 1 {
+                rep.count("histories rendered after every step before the next extension");
             }
             rep.add("schema_positions_in_reference_models", obs.model.count_nodes() as u64);
             rep.max("max_elements_in_one_document", case.docs.iter().map(|d| d.root.count_elems()).max().unwrap_or(0) as u64);
